@@ -640,6 +640,53 @@ impl E2 {
                 format!("levels:{}", s.join(" | "))
             }
             ["snapshots"] => format!("snapshots:{:?}", self.with_tree(|t| fe::snapshots(t)).unwrap()),
+            // C01 / C06: where every version sits (active memtable, immutable memtables in the order get searches them,
+            // per level every table with its key range) and what Snapshot::get answers for every stored key at every
+            // registered horizon and at the visibility horizon.  One line:
+            //   lv:lc=..;ver=..;ret=..;now=..;vis=..;snaps=a,b;act=V;imm=id:V+id:V;lev=T+T/T/..;reads=key.horizon.seq|n,..
+            //   V = key.seq.kind.ts,..   T = id:lo:hi:V   ("-" = empty)
+            ["lvdump"] => {
+                let d = match self.with_tree(|t| surrealkv::verif::levels::dump(t)) {
+                    Some(Ok(d)) => d,
+                    Some(Err(e)) => return format!("err:{}", e.replace(' ', "_")),
+                    None => return "err:closed".into(),
+                };
+                let vers = |vs: &Vec<(Vec<u8>, u64, u8, u64)>| {
+                    if vs.is_empty() {
+                        "-".to_string()
+                    } else {
+                        vs.iter().map(|v| format!("{}.{}.{}.{}", bytes_to_hex(&v.0), v.1, v.2, v.3)).collect::<Vec<_>>().join(",")
+                    }
+                };
+                let dash = |s: String| if s.is_empty() { "-".to_string() } else { s };
+                let imm = dash(d.immutables.iter().map(|(id, vs)| format!("{}:{}", id, vers(vs))).collect::<Vec<_>>().join("+"));
+                let lev = d
+                    .levels
+                    .iter()
+                    .map(|l| dash(l.iter().map(|t| format!("{}:{}:{}:{}", t.id, bytes_to_hex(&t.smallest), bytes_to_hex(&t.largest), vers(&t.versions))).collect::<Vec<_>>().join("+")))
+                    .collect::<Vec<_>>()
+                    .join("/");
+                let reads = dash(
+                    d.reads
+                        .iter()
+                        .map(|(k, h, r)| format!("{}.{}.{}", bytes_to_hex(k), h, r.map(|s| s.to_string()).unwrap_or_else(|| "n".into())))
+                        .collect::<Vec<_>>()
+                        .join(","),
+                );
+                format!(
+                    "lv:lc={};ver={};ret={};now={};vis={};snaps={};act={};imm={};lev={};reads={}",
+                    d.level_count,
+                    d.versioning as u8,
+                    d.retention_ns,
+                    d.now,
+                    d.visible_seq,
+                    dash(d.snapshots.iter().map(|s| s.to_string()).collect::<Vec<_>>().join(",")),
+                    vers(&d.active),
+                    imm,
+                    lev,
+                    reads
+                )
+            }
             // C11: the value-log bookkeeping of the running store (directory listing, writer ids, every live table's
             // oldest_vlog_file_id and stored values, the version index); stored values in the compact form of vp.rs
             ["vlogdump"] => {
